@@ -63,15 +63,26 @@ def make_specs():
         ('xs', (S(v=Vars()), [lambda v: v], T)),                     # 11 Vars
         Match({'a': {'b': int}, Optional('opt', default=[]): list, str: object}),      # 12 Optional default
         'a.zz.y',                                                    # 13 failing path
+        Invoke(_collect).star(kwargs='opts').specs(c='n').constants(d=1),   # 14 a dict of the target star-starred, then more kwargs
+        ('rec', Coalesce('b', 'zz', default='none')),               # 15 a dict-subclass instance: its handler is looked up by fuzzy type
     ]
 
 
-NTHUNK = 14
+def _collect(**kw):
+    return sorted(kw.items())
+
+
+class Rec(dict):
+    __slots__ = ()
+
+
+NTHUNK = 16
 G = [None]
 
 
 def target(x, y, xs):
-    return {'a': {'b': x}, 'n': y, 'xs': xs, 'xss': [xs, [y]], 'ds': [{'k': x}, {'k': y, 'j': x}]}
+    return {'a': {'b': x}, 'n': y, 'xs': xs, 'xss': [xs, [y]], 'ds': [{'k': x}, {'k': y, 'j': x}], 'opts': {'a': x, 'b': y},
+            'rec': Rec(b=x)}
 
 
 def outcome(thunk, spec, t, use_glommer=False):
@@ -150,7 +161,13 @@ def frame(p: int, x: int, y: int, xs: List[int]) -> bool:
     return True
 
 
-NTOGGLE = 7
+NTOGGLE = 8
+
+
+def _reg_dict_get():
+    # a registration that changes what the pool's thunks compute: missing dict keys read as 'REG' (for dict and, since it is not
+    # exact, for every dict subclass)
+    glom_pkg.register(dict, get=lambda o, k: o[k] if k in o else 'REG')
 
 
 def toggle(g, p, specs, t):
@@ -182,6 +199,8 @@ def toggle(g, p, specs, t):
         vkit.stubs.overfill_path_cache()
     elif g == 5:                     # cleared registry memo
         gc._DEFAULT_SCOPE[gc.TargetRegistry]._type_cache = {}
+    elif g == 7:
+        _reg_dict_get()
     else:                            # the same spec evaluated on another target, result mutated afterwards
         other = {'a': {'b': -1}, 'n': 5, 'xs': [9, 8], 'xss': [[9]], 'ds': [{'z': 1}]}
         try:
@@ -195,26 +214,39 @@ def toggle(g, p, specs, t):
 
 
 def _history(picks, toggles, x, y, xs, fresh_consts=None):
-    # 1. every thunk first, in fresh state, with fresh spec objects
+    # 1. every call first, in fresh state, with fresh spec objects and the registrations made before it replayed
+    #    (registrations are inputs of the outcome; everything else that happened before must not matter)
     fresh = {}
-    for p in set(picks):
+    regs = 0
+    for i, p in enumerate(picks):
+        if i > 0 and toggles[i - 1] == 7:
+            regs += 1
+        if (p, regs) in fresh:
+            continue
         vkit.stubs.reset_glom_state()
         if p == 3:
             G[0] = Glommer()
-        fresh[p] = outcome(p, make_specs()[p], target(x, y, xs), use_glommer=(p == 3))
+        for _ in range(regs):
+            _reg_dict_get()
+        fresh[(p, regs)] = outcome(p, make_specs()[p], target(x, y, xs), use_glommer=(p == 3))
     # 2. the history, with ONE set of spec objects shared by all calls
     vkit.stubs.reset_glom_state()
     if 3 in picks:
         G[0] = Glommer()
     specs = make_specs()
     results = []
+    regs = 0
     for i, p in enumerate(picks):
+        if i > 0 and toggles[i - 1] == 7:
+            regs += 1
         t = target(x, y, xs)
         got = outcome(p, specs[p], t, use_glommer=(p == 3))
         results.append(got)
-        if not same_outcome(got, fresh[p]):
-            return fail(why='outcome depends on history', call=i, p=p, got=got, fresh=fresh[p], picks=picks, toggles=toggles)
-        if fresh_consts is not None and repr(got) != fresh_consts[str(p)]:
+        if not same_outcome(got, fresh[(p, regs)]):
+            return fail(why='outcome depends on history', call=i, p=p, got=got, fresh=fresh[(p, regs)], picks=picks, toggles=toggles)
+        if regs:
+            reach('after_registration')
+        if fresh_consts is not None and regs == 0 and p != 3 and repr(got) != fresh_consts[str(p)]:
             return fail(why='differs from the fresh-interpreter outcome', p=p, got=repr(got), const=fresh_consts[str(p)])
         if got[0] == 'ok' and isinstance(got[1], list):
             got[1].append('mutated-by-caller')           # results must not be aliased to anything the library keeps
@@ -286,18 +318,18 @@ def obligations(tier):
     for p in range(NTHUNK):
         obs.append(Ob(frame, fixed={'p': p}, pre='len(xs) <= 3', name='frame_%d' % p))
     for p0 in range(NTHUNK):
-        gpre = '(g0 == 1 or g0 == 2 or g0 == 4 or g0 == 6)' if q else '0 <= g0 < %d' % NTOGGLE
+        gpre = '(g0 == 1 or g0 == 2 or g0 == 4 or g0 == 6 or g0 == 7)' if q else '0 <= g0 < %d' % NTOGGLE
         obs.append(Ob(history2, fixed={'p0': p0}, pre='0 <= p1 < %d and %s' % (NTHUNK, gpre),
                       name='history2_%d' % p0, timeout=200))
     # length 3, concrete data, checked against fresh-interpreter constants: first call, a toggle, the SAME spec again or
     # another thunk, a second toggle, any thunk
-    p0s = (0, 1, 4, 8) if q else range(NTHUNK)
-    g0s = (1, 4, 6) if q else range(NTOGGLE)
+    p0s = (0, 1, 4, 8, 15) if q else range(NTHUNK)
+    g0s = (1, 4, 6, 7) if q else range(NTOGGLE)
     for p0 in p0s:
         for g0 in g0s:
             for rep in ((True,) if q else (True, False)):
                 fx = {'p0': p0, 'g0': g0}
-                pre = '0 <= p2 < %d and ' % NTHUNK + ('(g1 == 0 or g1 == 1 or g1 == 4)' if q else '0 <= g1 < %d' % NTOGGLE)
+                pre = '0 <= p2 < %d and ' % NTHUNK + ('(g1 == 0 or g1 == 1 or g1 == 4 or g1 == 7)' if q else '0 <= g1 < %d' % NTOGGLE)
                 if rep:
                     fx['p1'] = p0
                 else:
@@ -315,5 +347,6 @@ def obligations(tier):
                               name='history4_%d_g%d' % (p0, g0), timeout=600))
     obs.append(Ob(history2, fixed={'p0': 4}, pre='0 <= p1 < %d and 0 <= g0 < %d' % (NTHUNK, NTOGGLE), twin='repeat', name='history2_4'))
     obs.append(Ob(frame, fixed={'p': 13}, pre='len(xs) <= 3', twin='frame_err', name='frame_13'))
+    obs.append(Ob(history2, fixed={'p0': 15}, pre='0 <= p1 < %d and (g0 == 6 or g0 == 7)' % NTHUNK, twin='after_registration', name='history2_15'))
     obs.append(Ob(history_concrete, fixed={'p0': 1, 'g0': 1, 'p1': 1}, pre='0 <= p2 < %d and 0 <= g1 < %d' % (NTHUNK, NTOGGLE), twin='history', name='history_concrete_1'))
     return obs
